@@ -1298,7 +1298,9 @@ def get_padded_extrema(X, pad_width=2, mode='peaks', parabolic_extrema=False,
     if mode == 'peaks':
         max_locs, max_ext = _find_extrema(X, parabolic_extrema=parabolic_extrema)
     elif mode == 'troughs':
-        max_locs, max_ext = _find_extrema(-X, parabolic_extrema=parabolic_extrema)
+        # Negate as float: '-X' wraps around for unsigned integer input and is
+        # not defined for boolean input
+        max_locs, max_ext = _find_extrema(-1.0 * X, parabolic_extrema=parabolic_extrema)
         max_ext = -max_ext
     elif mode == 'abs_peaks':
         max_locs, max_ext = _find_extrema(np.abs(X), parabolic_extrema=parabolic_extrema)
